@@ -153,6 +153,48 @@ pub fn check_code(code: &[u8]) -> Result<Option<usize>, Verdict> {
 enum Chunk {
     Seq(usize),
     Templates(usize, usize),
+    /// outer shift of the nested sub-word family
+    Nested(usize),
+}
+
+fn nested_outer_shifts() -> Vec<u64> {
+    let mut v: Vec<u64> = (0..32).map(|i| 8 * i).collect();
+    v.extend([1, 4, 100, 121, 250, 255]);
+    v
+}
+
+/// A field taken out of a field: sload(0) >> a, masked to w1 bits, >> b, masked to w2 bits, optionally stored. Every
+/// single shift and mask is below 256; the positions only add up to something beyond the slot together.
+fn nested_programs(a: u64) -> Vec<(String, Vec<u8>, bool)> {
+    let mut out = Vec::new();
+    for w1 in [8u32, 16, 32, 64, 128, 160, 248] {
+        let mut inner: Vec<u64> = (0..=w1 as u64 / 8).map(|i| 8 * i).collect();
+        inner.extend([1, w1 as u64 - 1, w1 as u64 - 7]);
+        inner.sort();
+        inner.dedup();
+        for b in inner {
+            for w2 in [8u32, 16, 32, 128, 160] {
+                for store in [false, true] {
+                    let mut t: Vec<Tok> = vec![p(0), o(op::SLOAD)];
+                    if a != 0 {
+                        t.extend([p(a), o(op::SHR)]);
+                    }
+                    t.extend([pu(U::pow2(w1).sub(U::ONE)), o(op::AND)]);
+                    if b != 0 {
+                        t.extend([p(b), o(op::SHR)]);
+                    }
+                    t.extend([pu(U::pow2(w2).sub(U::ONE)), o(op::AND)]);
+                    if store {
+                        t.extend([p(1), o(op::SSTORE)]);
+                    }
+                    // the inner region begins at or beyond the last bit of the field it is taken from
+                    let beyond = b >= w1 as u64;
+                    out.push((format!("((sload(0) >> {a}) & (2^{w1}-1)) >> {b} & (2^{w2}-1){}", if store { " stored to slot 1" } else { "" }), assemble(&t), beyond));
+                }
+            }
+        }
+    }
+    out
 }
 
 const TEMPLATE_SLICES: usize = 8;
@@ -167,10 +209,18 @@ fn plan(_tier: Tier) -> Vec<Chunk> {
             v.push(Chunk::Templates(t, s));
         }
     }
+    for i in 0..nested_outer_shifts().len() {
+        v.push(Chunk::Nested(i));
+    }
     v
 }
 
 fn run(ctx: &mut Ctx, family: &str, code: &[u8], desc: &dyn Fn() -> String) {
+    run_classified(ctx, family, code, desc, None)
+}
+
+/// `class`: a name for the shape of the input that replaces the type name in the key of an end-outside-slot violation.
+fn run_classified(ctx: &mut Ctx, family: &str, code: &[u8], desc: &dyn Fn() -> String, class: Option<&str>) {
     ctx.case(|| json!({"bytes": hex(code)}));
     ctx.count("evaluations", 1);
     ctx.count(family, 1);
@@ -184,7 +234,13 @@ fn run(ctx: &mut Ctx, family: &str, code: &[u8], desc: &dyn Fn() -> String) {
             }
         }
         Ok(None) => ctx.count("no_layout", 1),
-        Err(v) => ctx.violation(format!("{}:{}", v.key, hex(code)), format!("{} [{}]", v.what, desc()), json!({"bytes": hex(code)})),
+        Err(v) => {
+            let key = match class {
+                Some(c) if v.key.starts_with("end-outside-slot") => format!("end-outside-slot:{c}:{}", hex(code)),
+                _ => format!("{}:{}", v.key, hex(code)),
+            };
+            ctx.violation(key, format!("{} [{}]", v.what, desc()), json!({"bytes": hex(code)}))
+        }
     }
 }
 
@@ -221,6 +277,11 @@ impl Check for C12 {
                     true
                 });
             }
+            Chunk::Nested(i) => {
+                for (desc, code, beyond) in nested_programs(nested_outer_shifts()[i]) {
+                    run_classified(ctx, "nested_sub_words", &code, &|| desc.clone(), if beyond { Some("region-begins-beyond-its-container") } else { None });
+                }
+            }
             Chunk::Templates(t, slice) => {
                 let b = boundary_set(tier.thorough());
                 let b2: Vec<U> = if tier.thorough() { b.iter().copied().step_by(3).collect() } else { b.clone() };
@@ -240,7 +301,8 @@ impl Check for C12 {
         let rule = format!(
             "all stack-safe token sequences <= {} over {} mask-and-shift tokens (SLOAD 0, CALLDATALOAD, 5 masks incl. one at bits \
              248..255 and the full word, SHR/SHL by 0, 8, 96, 248, 250, 255, 256, 300, 2^64-1, division / multiplication by 2^8, \
-             2^96, 2^248, 2^255, OR, DUP1, SWAP1, SSTORE to slot 0 / 1) and {} pipeline templates x B x B (|B| = {}): on every returned \
+             2^96, 2^248, 2^255, OR, DUP1, SWAP1, SSTORE to slot 0 / 1) and {} pipeline templates x B x B (|B| = {}), and the nested sub-word family (a field of 8..160 bits taken out of a field of 8..248 bits of slot 0, \
+             outer shift 0..255, inner shift 0..outer width, read or stored): on every returned \
              layout the (slot, offset) sequence is non-decreasing, every offset is < 256 and offset + width <= 256 for every type \
              with a known width. non-trivial = layout with an entry at a non-zero bit offset; distinct by program",
             if tier.thorough() { 5 } else { 4 },
